@@ -222,8 +222,40 @@ def equal(a, b):
     return same(a, b) or (type(a) is type(b) and a == b)
 
 
+def timezone_cases():
+    """providers that convert between dates / datetimes and UNIX timestamps: the round trip may not depend on the local time zone
+    of the process (every case is executed under three zones, see run)"""
+    from adaptix import date_by_timestamp
+    for d in (dt.date(2020, 1, 2), dt.date(1970, 1, 1), dt.date(2024, 2, 29), dt.date(2038, 1, 19)):
+        yield "date_by_timestamp", dt.date, d, [date_by_timestamp()]
+        yield "List[date] by timestamp", List[dt.date], [d, d], [date_by_timestamp()]
+    for z in (dt.timezone.utc, dt.timezone(dt.timedelta(hours=-5)), dt.timezone(dt.timedelta(hours=9))):
+        yield f"datetime_by_timestamp({z})", dt.datetime, dt.datetime(2020, 1, 2, 3, 4, 5, tzinfo=z), [datetime_by_timestamp(tz=z)]
+
+
+ZONES = ("UTC", "America/New_York", "Asia/Tokyo")
+
+
 def run(report):
-    for leg, gen in (("generic", generic_cases), ("recursive", recursive_cases), ("variant", variant_cases)):
+    import os
+    import time
+    saved = os.environ.get("TZ")
+    try:
+        for zone in ZONES:
+            os.environ["TZ"] = zone
+            time.tzset()
+            _run_legs(report, (("timezone:" + zone, timezone_cases),))
+    finally:
+        if saved is None:
+            os.environ.pop("TZ", None)
+        else:
+            os.environ["TZ"] = saved
+        time.tzset()
+    return _run_legs(report, (("generic", generic_cases), ("recursive", recursive_cases), ("variant", variant_cases)))
+
+
+def _run_legs(report, legs):
+    for leg, gen in legs:
         for name, hint, value, recipe in gen():
             for mode in MODES:
                 case = {"kind": "extra", "leg": leg, "name": name, "mode": list(mode)}
